@@ -18,7 +18,6 @@ NA = {
  "C02": "2-run hyper-property over execution histories sharing a backend; contracts decide only the per-call kernels claimed under C03/C04/C05/C12",
  "C09": "liveness (termination under all schedules); partial-correctness contracts cannot state 'eventually'",
  "C10": "the property is about interleavings of two threads on unsynchronised flags; the VC generator has no concurrency logic",
- "C23": "not claimed: serializer round-trip contracts and the closure property of record transfer planned in DESIGN §8 were not built",
  "C36": "behaviour lives in Alembic DDL/DML executed by the database engine; no Python function whose contract states row preservation",
 }
 
